@@ -11,6 +11,7 @@ import (
 	"time"
 
 	abci "github.com/tendermint/tendermint/abci/types"
+	dbm "github.com/tendermint/tm-db"
 
 	"verifsim/core"
 )
@@ -52,6 +53,27 @@ func (cs *checkerSet) c07Tx(c *TxCtx) *core.Violation {
 	return nil
 }
 
+func startDesc(in ReexecInput) string {
+	if in.DB != nil {
+		return fmt.Sprintf("the node's disk after block %d", in.From)
+	}
+	return "genesis"
+}
+
+// dumpDisk copies the primary replica's store contents (the only durable state of a node).
+func (cs *checkerSet) dumpDisk(w *World) {
+	it, err := w.Primary().DB.Iterator(nil, nil)
+	if err != nil {
+		panic(err)
+	}
+	defer it.Close()
+	cs.dbDump = nil
+	for ; it.Valid(); it.Next() {
+		cs.dbDump = append(cs.dbDump, [2][]byte{append([]byte{}, it.Key()...), append([]byte{}, it.Value()...)})
+	}
+	cs.dbDumpAt = len(w.BlockLog)
+}
+
 func attKeyOf(c *TxCtx) string {
 	_, sc := assignedParty(c.Op.Msg)
 	return sc.attOwner + "|" + sc.attAud
@@ -62,6 +84,11 @@ type ReexecInput struct {
 	Genesis []byte     `json:"genesis"`
 	Time    time.Time  `json:"time"`
 	Blocks  []BlockRec `json:"blocks"`
+	// when DB is set the child does not start from genesis: it loads this dump of the node's disk
+	// (taken after block Blocks[From-1]) into a fresh store - a node restarted in a new process, or
+	// state-synced - and replays Blocks[From:]
+	DB   [][2][]byte `json:"db,omitempty"`
+	From int         `json:"from"`
 }
 
 type ReexecOutput struct {
@@ -83,9 +110,21 @@ func Reexec(path string) int {
 		return 2
 	}
 	w := &World{Time: in.Time, Cdc: encCfg.Marshaler, TxCfg: encCfg.TxConfig}
-	rep := w.bootReplica(in.Genesis)
+	var rep *Replica
+	if in.DB != nil {
+		db := dbm.NewMemDB()
+		for _, kv := range in.DB {
+			if err := db.Set(kv[0], kv[1]); err != nil {
+				panic(err)
+			}
+		}
+		rep = &Replica{App: newApp(db), DB: db}
+	} else {
+		rep = w.bootReplica(in.Genesis)
+		in.From = 0
+	}
 	var out ReexecOutput
-	for _, blk := range in.Blocks {
+	for _, blk := range in.Blocks[in.From:] {
 		b := blk
 		w.beginOn(rep, &b)
 		for _, tx := range blk.Txs {
@@ -104,6 +143,15 @@ func Reexec(path string) int {
 func (cs *checkerSet) crossProcess(w *World) *core.Violation {
 	r := cs.r
 	in := ReexecInput{Genesis: w.Genesis, Time: w.genesisTime, Blocks: w.BlockLog}
+	skipTx := 0
+	if cs.dbDump != nil && r.Bool(60, "c07.fromdisk") {
+		in.DB, in.From = cs.dbDump, cs.dbDumpAt
+		for _, b := range w.BlockLog[:in.From] {
+			skipTx += len(b.Txs)
+		}
+		r.Count("probe:cross-process-restart-from-disk")
+	}
+	mineApp, mineTx := cs.appHashes[in.From:], cs.txHashes[skipTx:]
 	b, _ := json.Marshal(in)
 	f, err := os.CreateTemp("", "verif-reexec-*.json")
 	if err != nil {
@@ -123,17 +171,17 @@ func (cs *checkerSet) crossProcess(w *World) *core.Violation {
 		panic(fmt.Sprintf("re-execution child output: %v", err))
 	}
 	r.Count("probe:cross-process-reexecutions")
-	if len(out.AppHashes) != len(cs.appHashes) || len(out.TxHashes) != len(cs.txHashes) {
-		return r.Flag("C07/cross-process-length", "child process produced %d blocks/%d txs, this process %d/%d", len(out.AppHashes), len(out.TxHashes), len(cs.appHashes), len(cs.txHashes))
+	if len(out.AppHashes) != len(mineApp) || len(out.TxHashes) != len(mineTx) {
+		return r.Flag("C07/cross-process-length", "child process produced %d blocks/%d txs, this process %d/%d", len(out.AppHashes), len(out.TxHashes), len(mineApp), len(mineTx))
 	}
 	for i := range out.TxHashes {
-		if out.TxHashes[i] != cs.txHashes[i] {
-			return r.Flag("C07/cross-process-tx-result", "transaction #%d: result differs between this process and a fresh process replaying the same history", i+1)
+		if out.TxHashes[i] != mineTx[i] {
+			return r.Flag("C07/cross-process-tx-result", "transaction #%d: result differs between this process and a fresh process executing the same history (child started from %s)", skipTx+i+1, startDesc(in))
 		}
 	}
 	for i := range out.AppHashes {
-		if out.AppHashes[i] != cs.appHashes[i] {
-			return r.Flag("C07/cross-process-apphash", "block %d (height %d): app hash differs between this process and a fresh process replaying the same history", i, w.BlockLog[i].Height)
+		if out.AppHashes[i] != mineApp[i] {
+			return r.Flag("C07/cross-process-apphash", "block %d (height %d): app hash differs between this process and a fresh process executing the same history (child started from %s)", in.From+i, w.BlockLog[in.From+i].Height, startDesc(in))
 		}
 	}
 	return nil
